@@ -88,6 +88,35 @@ def decodable_size(msg: tuple, wire_prefix: bytes, deflate: bool, inflater: Any 
     return len(plain.decode("utf-8", "ignore"))  # 'ignore' drops only the incomplete tail of a valid prefix
 
 
+def server_frames(raw: bytes) -> List[Tuple[bool, bool, int, bytes]]:
+    """RFC 6455 5.2 reader for the server -> client direction (unmasked): (fin, rsv1, opcode, payload) of every
+    complete frame at the start of `raw`; stops at the first incomplete (or masked) frame."""
+    out: List[Tuple[bool, bool, int, bytes]] = []
+    raw = bytes(raw)
+    i = 0
+    while len(raw) - i >= 2:
+        b0, b1 = raw[i], raw[i + 1]
+        if b1 & 0x80:
+            break
+        n = b1 & 0x7F
+        j = i + 2
+        if n == 126:
+            if len(raw) - j < 2:
+                break
+            n = struct.unpack("!H", raw[j:j + 2])[0]
+            j += 2
+        elif n == 127:
+            if len(raw) - j < 8:
+                break
+            n = struct.unpack("!Q", raw[j:j + 8])[0]
+            j += 8
+        if len(raw) - j < n:
+            break
+        out.append((bool(b0 & 0x80), bool(b0 & 0x40), b0 & 0x0F, raw[j:j + n]))
+        i = j + n
+    return out
+
+
 # ---------------------------------------------------------------------------------------------
 # C11: handshake validity
 
